@@ -646,6 +646,14 @@ impl<'m> MCTPSMBusContext<'m> {
                 // Vendor defined, we don't know what to do
                 Ok(((msg_type, payload), None))
             }
+            MessageType::SpdmOverMctp => {
+                // SPDM, we don't know what to do
+                Ok(((msg_type, payload), None))
+            }
+            MessageType::SecuredMessages => {
+                // Secured messages, we don't know what to do
+                Ok(((msg_type, payload), None))
+            }
             _ => Err((MessageType::Invalid, DecodeError::Unknown)),
         }
     }
